@@ -339,6 +339,22 @@ def r6(ctx):
         raise AnalysisBroken('C19.R6: only %d constructions found in NumberDataType::derive' % n)
 
 
+def _leaves(fn, expr, depth=0, isvar=None):
+    """the variables, members and calls an expression depends on; a local that is defined once stands for its initialiser"""
+    out = []
+    for x in fn.walk(expr):
+        v = fn.nodes[x]
+        if v['k'] not in ('DeclRefExpr', 'MemberExpr', 'CallExpr', 'CXXMemberCallExpr') or v.get('rk') in ('enumerator', 'method'):
+            continue
+        if v['k'] == 'DeclRefExpr' and v.get('rk') == 'local' and depth < 4 and not (isvar and isvar(v)):
+            src = fn.def_expr(x)
+            if src != fn.strip(x, casts=True):
+                out += _leaves(fn, src, depth + 1, isvar)
+                continue
+        out.append(x)
+    return out
+
+
 def _pure_conds(fn, nid, isvar):
     """[(cond, in_then)] of the enclosing if statements of nid whose condition depends on nothing but the variable"""
     out = []
@@ -347,8 +363,7 @@ def _pure_conds(fn, nid, isvar):
     while p is not None:
         v = fn.nodes[p]
         if v['k'] == 'IfStmt' and child != v.get('cond'):
-            leaves = [x for x in fn.walk(v['cond']) if fn.nodes[x]['k'] in ('DeclRefExpr', 'MemberExpr', 'CallExpr', 'CXXMemberCallExpr')
-                      and fn.nodes[x].get('rk') != 'enumerator']
+            leaves = _leaves(fn, v['cond'], 0, isvar)
             if leaves and all(isvar(fn.nodes[x]) for x in leaves):
                 out.append((v['cond'], v.get('then') is not None and (child == v['then'] or child in set(fn.walk(v['then'])))))
         child = p
@@ -415,7 +430,99 @@ def r7(ctx):
            'writer and reader agree for the bit counts %s' % sorted(counts))
 
 
+def multiline_rule(ctx, rid):
+    ctx.rule(rid, 'the parts of a quoted field that is wrapped over several lines are joined with the value separator whenever '
+             'something was collected before the line break: in FileReader::splitFields the condition of that insertion tests the '
+             'collected text for emptiness (position > 0 / != 0), not for a longer minimum - a first part of one character is '
+             'a part too (ACL levels "a" and "b" must not become "ab")', minimum=1)
+    import re
+    fb = ctx.fb
+    fn = fb.fn('ebusd::FileReader::splitFields')
+    ctx.touch(fn)
+    n = 0
+    for c in fn.all('CXXOperatorCallExpr'):
+        v = fn.nodes[c]
+        if v.get('op') != '<<' or len(v.get('args', [])) != 2 or fn.val(v['args'][1]) != 59:
+            continue
+        p = fn.parent(c)
+        child = c
+        cond = None
+        while p is not None:
+            pv = fn.nodes[p]
+            if pv['k'] == 'IfStmt' and pv.get('then') is not None and (child == pv['then'] or child in set(fn.walk(pv['then']))):
+                cond = pv['cond']
+                break
+            child = p
+            p = fn.parent(p)
+        if cond is None:
+            continue
+        n += 1
+        dnf = facts.implied(fn, cond, True)
+        size_atoms = []
+        for conj in dnf:
+            for a in conj:
+                k, pol = facts.atom_key(fn, a)
+                if re.search(r'\.(tellp|size|length)\(\)', k) and not k.startswith('(__gnu') and '.end()' not in k:
+                    size_atoms.append((k, pol))
+        ok = bool(size_atoms) and all((re.search(r' <= #0\)$', k) and not pol) or (re.search(r' == #0\)$', k) and not pol) or
+                                      (re.search(r' < #1\)$', k) and not pol) or (k.endswith('.empty()') and not pol) for k, pol in size_atoms)
+        ctx.ob(rid, fn, c, ok, 'separator between the parts of a multi-line field', 'emptiness test of the collected text: %s' % (size_atoms,))
+    if n < 1:
+        raise AnalysisBroken('%s: insertion of the value separator not found in splitFields' % rid)
+
+
+def r9(ctx):
+    ctx.rule('C19.R9', 'a divisor is written with its sign: a negative divisor is ebusd\'s notation for a multiplier, so every value '
+             'that NumberDataType::dump inserts into the output from m_divisor has a signed integer type (an unsigned cast '
+             'writes -10 as 4294967286, which cannot be loaded again)', minimum=2)
+    fb = ctx.fb
+    fn = fb.fn('ebusd::NumberDataType::dump')
+    ctx.touch(fn)
+    n = 0
+    for x, v in sorted(fn.nodes.items()):
+        if v['k'] not in ('CXXOperatorCallExpr', 'CXXMemberCallExpr') or 'operator<<' not in (v.get('callee') or '') or not v.get('args'):
+            continue
+        a = v['args'][-1]
+        if 'm_divisor' not in fn.key(a):
+            continue
+        n += 1
+        av = fn.nodes[a]
+        ok = bool(av.get('sg')) and not av.get('bool')
+        ctx.ob('C19.R9', fn, x, ok, 'divisor written by dump', 'inserted as %s (%s)' % (av.get('t'), fn.key(a)[:60]))
+    if n < 2:
+        raise AnalysisBroken('C19.R9: only %d insertions of the divisor found in NumberDataType::dump' % n)
+
+
+def r10(ctx):
+    ctx.rule('C19.R10', 'parseInt() reads a number from the front of a text and reports how much it consumed (the value list parser '
+             'hands it the whole "key=name" token), so what follows the number must not matter: its search for a minus sign is '
+             'bounded by the end pointer of strtoul (memchr(str, \'-\', strEnd - str)); an unbounded search rejects '
+             '"1=heat-up", a value list that was dumped and cannot be loaded again', minimum=1)
+    fb = ctx.fb
+    fn = fb.fn('ebusd::parseInt', file_suffix='lib/ebus/symbol.cpp')
+    ctx.touch(fn)
+    endp = fn.outarg('strtoul', 1)
+    st = fn.P(0)
+    n = 0
+    for c in fn.all('CallExpr', 'CXXMemberCallExpr'):
+        v = fn.nodes[c]
+        cal = (v.get('callee') or '').split('::')[-1]
+        if cal not in ('memchr', 'strchr', 'strrchr', 'strstr', 'find', 'strpbrk') or len(v.get('args', [])) < 2:
+            continue
+        if not any(fn.val(a) == 45 or fn.key(a) in ('"-"',) for a in v['args']):
+            continue
+        n += 1
+        a = [fn.key(x) for x in v['args']]
+        ok = cal == 'memchr' and len(a) == 3 and a[0] == st and endp is not None and a[2] in ('(%s - %s)' % (endp, st), '(unsigned long)(%s - %s)' % (endp, st))
+        ctx.ob('C19.R10', fn, c, ok, 'search for a minus sign in parseInt', '%s(%s)' % (cal, ', '.join(a)))
+    if n < 1:
+        raise AnalysisBroken('C19.R10: search for the minus sign not found in parseInt')
+
+
 def run(ctx):
+    r10(ctx)
+    r9(ctx)
+    multiline_rule(ctx, 'C19.R8')
     r7(ctx)
     r1(ctx)
     r2(ctx)
